@@ -395,13 +395,119 @@ class Reference:
         if c.fill is None:
             return [((cid,), reg, c.mat, c.rho)]
         if isinstance(c.fill, LatFill) or c.lat:
-            raise ref.RefError('lattices are handled by latref')
+            raise ref.RefError('a lattice cell must be reached through a FILL (handled by lattice_chains)')
         T = self.fill_tr(c)
         Q = ref.aux_point(T, P) if T is not None else P
         out = []
         for fid in self.by_u.get(c.fill, []):
-            for label, r, mat, rho in self.chains(fid, Q, depth + 1):
+            if self.cells[fid].lat:
+                sub = self.lattice_chains(fid, Q, depth + 1)
+            else:
+                sub = self.chains(fid, Q, depth + 1)
+            for label, r, mat, rho in sub:
                 out.append(((cid,) + label, n.And(reg, r), mat, rho))
+        return out
+
+    # ---- lattices (LAT=1 rectangular, LAT=2 hexagonal prisms)
+    def lattice_spec(self, lc):
+        """(ranges, universes) of a lattice cell: FILL array, or FILL=n over the --lattice ranges."""
+        if isinstance(lc.fill, LatFill):
+            return lc.fill.ranges, lc.fill.universes
+        for opt in self.deck.lattice_opt:
+            head, *rest = opt.split(',')
+            if int(head) == lc.id:
+                ranges = [tuple(int(v) for v in r.split(':')) for r in rest]
+                size = 1
+                for lo, hi in ranges:
+                    size *= hi - lo + 1
+                return ranges, [lc.fill] * size
+        raise ref.RefError('lattice cell %d has no ranges' % lc.id)
+
+    def lattice_vectors(self, lc):
+        """translation vectors a1, a2[, a3] from the order in which the bounding planes are listed."""
+        planes = []
+
+        def leaves(e):
+            if e[0] == 's':
+                yield e
+            elif e[0] == 'and':
+                for a in e[1:]:
+                    yield from leaves(a)
+            else:
+                raise ref.RefError('a lattice unit cell must be an intersection of half-spaces')
+        for leaf in leaves(lc.expr):
+            s = self.deck.surf(abs(leaf[1]))
+            if s.tr or s.mn not in ('PX', 'PY', 'PZ', 'P'):
+                raise ref.RefError('lattice reference: planes without TR only')
+            p = [n.N(v) for v in s.params]
+            if s.mn == 'P':
+                nrm, d = p[0:3], p[3]
+            else:
+                ax = 'XYZ'.index(s.mn[1])
+                nrm = [Fraction(1) if i == ax else Fraction(0) for i in range(3)]
+                d = p[0]
+            planes.append((nrm, d))
+        if lc.lat == 1:
+            if len(planes) not in (2, 4, 6):
+                raise ref.RefError('rectangular lattice with %d planes' % len(planes))
+            pairs = [(planes[2 * i], planes[2 * i + 1]) for i in range(len(planes) // 2)]
+            # a_i . n_j = 0 (j != i),  a_i . n_i = d_first - d_second (n_i normalised to the first plane's normal;
+            # the second plane of a pair is parallel: its offset is rescaled to the same normal)
+            N_ = [pr[0][0] for pr in pairs]
+            gaps = []
+            for (n1, d1), (n2, d2) in pairs:
+                # scale factor between the two parallel normals: n2 = lam n1
+                k = next(i for i in range(3) if not (not n.is_sym(n1[i]) and n1[i] == 0))
+                lam = n.div(n2[k], n1[k])
+                gaps.append(n.sub(d1, n.div(d2, lam)))
+            # a_i in span(N_): a_i = sum_j c_ij N_j with Gram matrix G: G c_i = gap_i e_i
+            m = len(N_)
+            G = [[n.dot(N_[i], N_[j]) for j in range(m)] for i in range(m)]
+            vecs = []
+            for i in range(m):
+                rhs = [gaps[i] if j == i else Fraction(0) for j in range(m)]
+                c = _solve(G, rhs)
+                vecs.append(tuple(n.ssum(n.mul(c[j], N_[j][k]) for j in range(m)) for k in range(3)))
+            return vecs
+        from . import hexref
+        return hexref.vectors(planes)
+
+    def lattice_chains(self, lid, P, depth):
+        lc = self.cells[lid]
+        ranges, univs = self.lattice_spec(lc)
+        vecs = self.lattice_vectors(lc)
+        if len(ranges) < len(vecs):
+            raise ref.RefError('fewer index ranges than lattice dimensions')
+        # indices beyond the lattice dimensionality must be trivial (a:a)
+        idx_lists = [list(range(lo, hi + 1)) for lo, hi in ranges]
+        out = []
+        pos = 0
+        import itertools
+        # first index fastest
+        for rev in itertools.product(*reversed(idx_lists)):
+            index = tuple(reversed(rev))
+            u = univs[pos]
+            pos += 1
+            if u == 0:
+                continue
+            t = [Fraction(0)] * 3
+            for i, v in zip(index, vecs):
+                t = [n.add(t[k], n.mul(Fraction(i), v[k])) for k in range(3)]
+            for i in index[len(vecs):]:
+                if i != ranges[len(vecs)][0]:
+                    pass
+            Q = n.vsub(P, t)
+            cell_reg = self.expr_region(lc.expr, Q, lid)
+            if u == (lc.u or 0):
+                out.append((('elem',), cell_reg, lc.mat, lc.rho))
+                continue
+            T = self.fill_tr(lc)
+            Q2 = ref.aux_point(T, Q) if T is not None else Q
+            for fid in self.by_u.get(u, []):
+                if self.cells[fid].lat:
+                    raise ref.RefError('nested lattices are outside the reference')
+                for label, r, mat, rho in self.chains(fid, Q2, depth + 1):
+                    out.append((label, n.And(cell_reg, r), mat, rho))
         return out
 
     def level0(self):
@@ -460,6 +566,21 @@ def chain_label(label):
     if len(label) == 1:
         return label
     return (label[-1], label[0])
+
+
+def _solve(G, rhs):
+    """solve the small linear system G c = rhs (Gauss elimination on num.py numbers; pivots must be
+    syntactically non-zero: the generated lattices have constant plane normals)."""
+    m = len(G)
+    A = [list(G[i]) + [rhs[i]] for i in range(m)]
+    for col in range(m):
+        piv = next(r for r in range(col, m) if n.is_sym(A[r][col]) or A[r][col] != 0)
+        A[col], A[piv] = A[piv], A[col]
+        for r in range(m):
+            if r != col:
+                f = n.div(A[r][col], A[col][col])
+                A[r] = [n.sub(A[r][k], n.mul(f, A[col][k])) for k in range(m + 1)]
+    return [n.div(A[i][m], A[i][i]) for i in range(m)]
 
 
 # ------------------------------------------------------------------ JSON (replay cases carry concrete decks)
